@@ -598,6 +598,13 @@ func numCarrier(v *TV, kind string) (any, bool) {
 	switch kind {
 	case "", "json":
 		return json.Number(plain), true
+	case "jsonexp": // the same value in exponent spelling, e.g. 1e2, 5e-1
+		return json.Number(text), true
+	case "jsondot": // an integer written with a fraction part, e.g. 100.0
+		if v.E < 0 {
+			return nil, false
+		}
+		return json.Number(plain + ".0"), true
 	case "decimal":
 		d, err := decimal128.Parse(text)
 		if err != nil {
